@@ -99,7 +99,10 @@ META = {
         "at default margins, plus every single [thorough: and "
         "double] deviation of line_overlap{0,1} char_margin{0,1000} line_margin{0,100} word_margin{0,100} at "
         "(0.5,True,True) [thorough: single deviations also at boxes_flow=None]). A case is one (sequence, LAParams) "
-        "pair, distinct by construction; plus the family vcols: two or three vertical columns of two stacked 16-high glyphs each "
+        "pair, distinct by construction; sequences of length 1..max_len-1 are additionally analysed (quick grid) in two layouts "
+        "whose enclosing containers have no glyph of their own (page = rect + figure with the sequence; page = rect + glyph-less "
+        "figure holding the figure with the sequence), where with all_texts the figure's result must equal the result of the same "
+        "sequence analysed as direct page content and without all_texts the figure's children must be untouched; plus the family vcols: two or three vertical columns of two stacked 16-high glyphs each "
         "(column A x 40..56; column B at x0 in {32,36,40,44,48,52,60} with width {8,12,16,24}, level or 4 lower; optional third "
         "column), every content order of the columns, with and without a far-away separator glyph between columns, so that "
         "vertical boxes hold lines of different widths with nested, partially overlapping, equal-edge and disjoint x-extents; "
@@ -115,6 +118,7 @@ META = {
         "ties between equal box distances are broken by id() (memory address) in group_textboxes; the harness substitutes a "
         "first-asked counter for the name `id` inside pdfminer.layout so that runs are reproducible (address dependence is C12's subject)",
         "numbering 0..n-1 is judged per layout container (page; figure when all_texts)",
+        "the ordering claim (top-to-bottom, right-to-left for vertical boxes) is read as implying that a box holds only lines of its own writing direction",
         "'one orientation per line' is read as: a line is horizontal or vertical and every pair of consecutive glyphs in it "
         "overlaps on the line's cross axis",
     ],
@@ -130,28 +134,75 @@ def _lap(p):
     return LAParams(line_overlap=lo, char_margin=cm, line_margin=lm, word_margin=wm, boxes_flow=bf, detect_vertical=dv, all_texts=at)
 
 
-def build(specs):
-    """-> (page, originals) ; originals = list of (obj, where, snapshot)"""
-    page, chars = make_page(PAGE_BBOX, specs[:1])
-    originals = [(c, "page") for c in chars]
+OUTER_FIG_BBOX = (4, 24, 46, 61)
+OUTER_RECT_BBOX = (4.5, 24.5, 45.5, 60.5)
+VARIANTS = {
+    0: "page holds the glyph sequence, a rect and a figure with a copy of the sequence and a rect",
+    1: "page holds no glyph of its own: a rect and a figure with the sequence and a rect",
+    2: "page holds a rect and a glyph-less figure (with a rect) that holds the figure with the sequence and a rect",
+}
+
+
+def build(specs, variant=0):
+    """-> (page, originals); originals = list of (obj, parent container).  Every container also gets an LTRect."""
+    page, chars = make_page(PAGE_BBOX, specs[:1] if variant == 0 else [])
+    originals = [(c, page) for c in chars]
     rect = make_rect(RECT_BBOX)
     page.add(rect)
-    originals.append((rect, "page"))
-    for s in specs[1:]:
-        c = make_char(s)
-        page.add(c)
-        originals.append((c, "page"))
+    originals.append((rect, page))
+    if variant == 0:
+        for s in specs[1:]:
+            c = make_char(s)
+            page.add(c)
+            originals.append((c, page))
+    parent = page
+    if variant == 2:
+        outer = make_figure("O", OUTER_FIG_BBOX)
+        r3 = make_rect(OUTER_RECT_BBOX)
+        outer.add(r3)
+        originals.append((r3, outer))
+        parent = outer
     fig = make_figure("F", FIG_BBOX)
     for s in specs:
         c = make_char(s)
         fig.add(c)
-        originals.append((c, "fig"))
+        originals.append((c, fig))
     r2 = make_rect(FIG_RECT_BBOX)
     fig.add(r2)
-    originals.append((r2, "fig"))
-    page.add(fig)
-    originals.append((fig, "page"))
+    originals.append((r2, fig))
+    parent.add(fig)
+    originals.append((fig, parent))
+    if variant == 2:
+        page.add(outer)
+        originals.append((outer, page))
     return page, fig, originals
+
+
+def canon_container(cont, glyph_pos):
+    """ordered structure of an analysed container: boxes (class, index, lines), loose lines, other items"""
+    def line(ln):
+        return ("V" if isinstance(ln, LTTextLineVertical) else "H",
+                tuple(glyph_pos.get(id(o), "anno:" + o.get_text()) for o in ln), ln.get_text())
+    out = []
+    for o in cont:
+        if isinstance(o, LTTextBox):
+            out.append(("B", "V" if isinstance(o, LTTextBoxVertical) else "H", o.index, tuple(line(ln) for ln in o)))
+        elif isinstance(o, LTTextLine):
+            out.append(("E",) + line(o))
+        elif isinstance(o, LTChar):
+            out.append(("bare-glyph", glyph_pos.get(id(o))))
+        else:
+            out.append(("O", type(o).__name__))
+    return tuple(out)
+
+
+def reference_structure(specs, p):
+    """the same sequence (and a rect) analysed as the direct content of a page that has the figure's box"""
+    page, chars = make_page(FIG_BBOX, specs)
+    page.add(make_rect(FIG_RECT_BBOX))
+    install_stable_id().reset()
+    page.analyze(_lap(p))
+    return canon_container(page, {id(c): i for i, c in enumerate(chars)})
 
 
 def _snap(o):
@@ -237,6 +288,12 @@ class Walk:
                 continue
             ok.append(ln)
             texts.append(self.line(ln, where))
+            if (hb and isinstance(ln, LTTextLineVertical)) or (vb and isinstance(ln, LTTextLineHorizontal)):
+                self.bad(
+                    "C08/box-mixes-line-directions:" + ("horizontal-box" if hb else "vertical-box"),
+                    "a horizontal box holds horizontal lines, a vertical box vertical lines",
+                    [type(x).__name__ for x in lines],
+                )
         if not ok:
             self.bad("C08/box-without-line", ">= 1 line", 0)
             return ""
@@ -307,6 +364,8 @@ class Walk:
                 self.leaves.append(id(o))
                 if isinstance(o, LTFigure):
                     figs.append(o)
+                elif isinstance(o, LTChar) and analysed:
+                    self.bad("C08/glyph-outside-line:" + where, "every glyph of an analysed container inside a line", repr(o))
         if len(boxes) >= 2:
             self.multi = True
         idx = [b.index for b in boxes]
@@ -345,13 +404,14 @@ class Walk:
         return figs
 
 
-def analyse(specs, p):
-    """Runs the real analysis and the invariant walk. -> (problems, outcome, nontrivial)"""
+def analyse(specs, p, variant=0):
+    """Runs the real analysis and the invariant walk. -> (problems, outcome, nontrivial, complete)"""
     global _HEAP
     if _HEAP is None:
         _HEAP = install_counting_heapq()
-    page, fig, originals = build(specs)
+    page, fig, originals = build(specs, variant)
     before = [_snap(o) for o, _ in originals]
+    children_before = {id(c): [id(o) for o in c] for c in {id(par): par for _, par in originals}.values()}
     n = len(specs)
     _HEAP.pops = 0
     install_stable_id().reset()
@@ -364,51 +424,70 @@ def analyse(specs, p):
         tb = traceback.extract_tb(e.__traceback__)
         return [(f"C08/exception:{type(e).__name__}@{tb[-1].name}", "analysis returns", f"{type(e).__name__}: {e}")], ("exc", type(e).__name__), True, False
     w = Walk(p)
-    figs = w.container(page, "page", True)
-    page_leaves = w.leaves
-    w.leaves = []
-    for f in figs:
-        w.shape.append(("F",))
-        w.container(f, "fig", p[2])
-    fig_leaves = w.leaves
+    leaves_of = {}
+
+    def descend(cont, name, analysed):
+        w.leaves = []
+        figs = w.container(cont, name, analysed)
+        leaves_of[id(cont)] = (name, w.leaves)
+        if not analysed and [id(o) for o in cont] != children_before.get(id(cont)):
+            w.bad("C08/figure-content-changed-without-all_texts", "children untouched", f"{name}: children differ after analysis")
+        for f in figs:
+            w.shape.append(("F",))
+            descend(f, "fig" if f is fig else "outer-fig", p[2])
+
+    descend(page, "page", True)
     # conservation: every original exactly once, in its own container, nothing foreign
-    for where, leaves in (("page", page_leaves), ("fig", fig_leaves)):
-        want = [id(o) for o, wh in originals if wh == where]
+    byid = {id(o): o for o, _ in originals}
+    parents = {id(par): par for _, par in originals}
+    for pid_, par in parents.items():
+        name, leaves = leaves_of.get(pid_, ("unreached", []))
+        want = [id(o) for o, q in originals if q is par]
         cnt = {}
         for i in leaves:
             cnt[i] = cnt.get(i, 0) + 1
-        byid = {id(o): o for o, _ in originals}
         for i in want:
             c = cnt.get(i, 0)
             kind = "glyph" if isinstance(byid[i], LTChar) else type(byid[i]).__name__
             if c == 0:
-                w.bad(f"C08/lost-item:{kind}", "occurs once", f"{where}: {byid[i]!r} absent from the hierarchy")
+                w.bad(f"C08/lost-item:{kind}", "occurs once", f"{name}: {byid[i]!r} absent from the hierarchy")
             elif c > 1:
-                w.bad(f"C08/duplicated-item:{kind}", "occurs once", f"{where}: {byid[i]!r} occurs {c} times")
+                w.bad(f"C08/duplicated-item:{kind}", "occurs once", f"{name}: {byid[i]!r} occurs {c} times")
         ws = set(want)
         for i in cnt:
             if i not in ws:
-                w.bad("C08/foreign-item", "only original items", f"{where}: unknown leaf")
-    if fig not in figs:
-        pass  # reported as lost-item above
+                w.bad("C08/foreign-item", "only original items", f"{name}: unknown leaf")
     after = [_snap(o) for o, _ in originals]
-    for (o, wh), b, a in zip(originals, before, after):
+    for (o, par), b, a in zip(originals, before, after):
         if a != b:
             kind = "glyph" if isinstance(o, LTChar) else type(o).__name__
             w.bad(f"C08/altered-item:{kind}", b, a)
     if tuple(page.bbox) != PAGE_BBOX:
         w.bad("C08/altered-item:LTPage", PAGE_BBOX, tuple(page.bbox))
-    return w.problems, tuple(w.shape), w.multi, True
+    # glyph-less enclosing containers: with all_texts the figure's glyphs must be grouped exactly as the same
+    # sequence is grouped as direct page content (same box); without all_texts the figure stays untouched (above)
+    if variant and p[2] and specs:
+        pos = {}
+        k = 0
+        for o, par in originals:
+            if par is fig and isinstance(o, LTChar):
+                pos[id(o)] = k
+                k += 1
+        got = canon_container(fig, pos)
+        want = reference_structure(specs, p)
+        if got != want:
+            w.bad("C08/figure-in-glyphless-container-not-grouped-like-page-content", want, got)
+    return w.problems, (variant,) + tuple(w.shape), w.multi, True
 
 
-def check_case(specs, p, st):
-    problems, outcome, multi, complete = analyse(specs, p)
+def check_case(specs, p, st, variant=0):
+    problems, outcome, multi, complete = analyse(specs, p, variant)
     st.transitions += 1
     if complete:
         st.traces += 1
     st.case(None, nontrivial=multi, outcome=outcome)
     if problems:
-        case = {"glyphs": [tuple(s) for s in specs], "params": tuple(p)}
+        case = {"glyphs": [tuple(s) for s in specs], "params": tuple(p), "variant": variant}
         seen = set()
         for sig, exp, obs in problems:
             if sig in seen:
@@ -487,6 +566,11 @@ def run_shard(shard, tier, st):
         grid = quick if len(seq) > BOUNDS["quick"]["max_len"] else full
         for p in grid:
             check_case(specs, p, st)
+        # glyph-less enclosing containers (variants 1, 2) for the shorter sequences
+        if 1 <= len(seq) <= BOUNDS[tier]["max_len"] - 1:
+            for variant in (1, 2):
+                for p in quick:
+                    check_case(specs, p, st, variant)
         if first and shard in (("short",), ("pre", 0, 1), ("pre", 10, 0), ("pre", 3, 9)):
             pass
         first = False
@@ -497,7 +581,7 @@ def run_shard(shard, tier, st):
 def replay(case):
     specs = [tuple(s) for s in case["glyphs"]]
     p = tuple(case["params"])
-    problems, _, _, _ = analyse(specs, p)
+    problems, _, _, _ = analyse(specs, p, int(case.get("variant", 0)))
     out = []
     seen = set()
     for sig, exp, obs in problems:
